@@ -23,6 +23,7 @@ import (
 	"verifharness/kit/pk"
 
 	"github.com/polynetwork/poly/common"
+	"github.com/polynetwork/poly/consensus/vbft"
 	"github.com/polynetwork/poly/native"
 	"github.com/polynetwork/poly/native/service/cross_chain_manager/consensus_vote"
 	"github.com/polynetwork/poly/native/service/governance/node_manager"
@@ -43,11 +44,11 @@ func govThreshold(n int) int {
 func TestC42(t *testing.T) {
 	r := kit.Start(t, "C42", "exploration")
 	defer r.Finish()
-	r.Rule("boundary probing of the real threshold users for every N in the probed range (accept at exactly the formula value, refuse one below): ledger verifyHeader N=1..24 quick / 1..40 thorough x {new rule, legacy rule} x {header path, block path}; CheckConsensusSigns / CheckVotes / CheckSigns N=1..64 quick / 1..256 thorough; plus the arithmetic intersection sweep N=1..10000; evaluation = one boundary verdict or one N of the sweep; distinct = (function, N, side)")
+	r.Rule("boundary probing of the real threshold users for every N in the probed range (accept at exactly the formula value, refuse one below): ledger verifyHeader N=1..24 quick / 1..40 thorough x {new rule, legacy rule} x {header path, block path}; CheckConsensusSigns / CheckVotes / CheckSigns N=1..64 quick / 1..256 thorough; vbft getCommitConsensus N=2..64 / 2..256 (three message shapes, C from the node's chain config); plus the arithmetic intersection sweep N=1..10000; evaluation = one boundary verdict or one N of the sweep; distinct = (function, N, side)")
 	r.Exhaustive(false)
 	r.Assume("the statement for ALL N >= 1 is a theorem; this check samples it: implemented formulas are inline expressions and are observed only for the probed N, the sweep to 10000 is arithmetic done by the checker")
 	r.Assume("the intersection claim is asserted only for N-f and ceil(2N/3); the legacy ledger rule N - floor(6N/7) is probed for equality with its formula but NOT for intersection (it does not provide it)")
-	r.Assume("vbft getCommitConsensus is unexported and is not probed here (covered by the consensus checks)")
+	r.Assume("vbft getCommitConsensus is driven through the verif export consensus/vbft.VerifCommitConsensus with N and C of the chain configuration poly generates for N validators")
 
 	// ---------------- arithmetic sweep
 	for n := 1; n <= 10000; n++ {
@@ -135,6 +136,64 @@ func TestC42(t *testing.T) {
 			os.RemoveAll(dir)
 		}
 		probedLedger = append(probedLedger, n)
+	}
+
+	// ---------------- vbft commit quorum (getCommitConsensus through the verif export), with the
+	// fault bound C the node itself configures for N validators (chain config built by poly)
+	maxCommit := r.N(64, 256)
+	for n := 2; n <= maxCommit; n++ { // N = 1: there is no commit message besides the proposer's own
+		vals := pk.NewKeys(r.Rand(fmt.Sprintf("commit-%d", n)), n)
+		pk.SetConfig(3, vals)
+		cc := pk.ChainConfigFor(vals, 1, 0)
+		N, C := int(cc.N), int(cc.C)
+		if N != n {
+			r.Violation("chain-config-N-differs", fmt.Sprintf("chain config for %d validators says N=%d", n, N), nil)
+			continue
+		}
+		T := blockThreshold(n)
+		// total = distinct signatures counted for proposer 1, the proposer's own included
+		reached := func(total int, shape string) bool {
+			var msgs []*vbft.VerifPoolCommit
+			switch shape {
+			case "committers": // total-1 other nodes each send a commit message
+				for i := 0; i < total-1; i++ {
+					msgs = append(msgs, &vbft.VerifPoolCommit{Committer: uint32(i + 2), BlockProposer: 1, BlockNum: 1})
+				}
+			case "endorsers": // one commit message carrying the endorsers' signatures
+				if total-1 >= 1 {
+					m := &vbft.VerifPoolCommit{Committer: 2, BlockProposer: 1, BlockNum: 1, EndorsersSig: map[uint32][]byte{}}
+					for i := 1; i < total-1; i++ {
+						m.EndorsersSig[uint32(i+2)] = []byte{1}
+					}
+					msgs = append(msgs, m)
+				}
+			case "repeats": // every committer sends its message twice: repeats must not count
+				for i := 0; i < total-1; i++ {
+					c := &vbft.VerifPoolCommit{Committer: uint32(i + 2), BlockProposer: 1, BlockNum: 1}
+					msgs = append(msgs, c, c)
+				}
+			}
+			p, _ := vbft.VerifCommitConsensus(msgs, C, N)
+			return p == 1
+		}
+		for _, shape := range []string{"committers", "endorsers", "repeats"} {
+			ctx := map[string]interface{}{"N": N, "C_from_chain_config": C, "shape": shape, "formula": T}
+			r.Eval(2)
+			r.Distinct("commit", shape, n)
+			if T-1 >= 1 && reached(T-1, shape) {
+				r.Violation("commit-quorum-below-formula", fmt.Sprintf("N=%d C=%d (%s): commit consensus reached with %d distinct signatures, N-f is %d", N, C, shape, T-1, T), ctx)
+			} else {
+				r.Count("commit_not_reached_one_below", 1)
+			}
+			if !reached(T, shape) {
+				r.Violation("commit-quorum-above-formula", fmt.Sprintf("N=%d C=%d (%s): %d distinct signatures do not reach commit consensus, N-f is %d", N, C, shape, T, T), ctx)
+			} else {
+				r.Count("commit_reached_at_formula", 1)
+			}
+		}
+		if n%3 == 0 {
+			r.Count("commit_probed_N_multiple_of_3", 1)
+		}
 	}
 
 	// ---------------- governance thresholds
@@ -234,13 +293,16 @@ func TestC42(t *testing.T) {
 		"CheckConsensusSigns_N":    fmt.Sprintf("1..%d", maxGov),
 		"CheckVotes_N":             fmt.Sprintf("1..%d", maxGov),
 		"CheckSigns_N":             fmt.Sprintf("1..%d", maxGov),
-		"vbft_getCommitConsensus":  "not probed (unexported)",
+		"vbft_getCommitConsensus":  fmt.Sprintf("2..%d with C taken from the chain config poly builds for N validators (via verif export VerifCommitConsensus)", maxCommit),
 		"arithmetic_only_N":        "1..10000 (checker-side evaluation of the intersection inequalities)",
 		"legacy_rule_intersection": "not asserted",
 	})
 	r.Sample(map[string]interface{}{"N": 7, "f": 2, "block_threshold": blockThreshold(7), "governance_threshold": govThreshold(7), "legacy_ledger_threshold": sigkit.Required(7, true)})
 	r.Sample(map[string]interface{}{"ledger_probed_N": probedLedger})
 	r.Require("arithmetic_sweep_N", 10000)
+	r.Require("commit_reached_at_formula", (maxCommit-1)*3)
+	r.Require("commit_not_reached_one_below", (maxCommit-1)*3)
+	r.Require("commit_probed_N_multiple_of_3", maxCommit/3)
 	r.Require("ledger_accepted_at_formula", maxLedger*4)
 	r.Require("ledger_refused_one_below", maxLedger*4)
 	r.Require("governance_true_exactly_at_formula", maxGov*3)
